@@ -51,6 +51,7 @@ BASES = ["chain", "chain3", "param", "param_bspline", "twostage", "discrete"]
 FAULTS = {
     "missing_der": (["chain", "chain3", "param", "twostage"], [0, 1, 2], False),
     "missing_next": (["discrete"], [0, 1], False),
+    "missing_der_quad": (["chain", "param", "twostage"], [0], True),     # a user quadrature state without its set_der
     "missing_value_global": (["param", "param_bspline", "twostage"], [0, 1], False),
     "missing_value_interval": (["param", "param_bspline"], [0], False),
     "missing_method": (["chain", "twostage"], [0, 1], False),
@@ -169,7 +170,9 @@ def late_fault(ocp, st, S, fault, pos, sol=None):
     """one faulty public call"""
     import casadi as ca
     x0 = S["x"][0]
-    if fault == "objective_signal":
+    if fault == "missing_der_quad":
+        st.state(quad=True)
+    elif fault == "objective_signal":
         st.add_objective(x0 * x0)
     elif fault == "objective_nonscalar":
         st.add_objective(st.at_tf(ca.vertcat(x0, S["x"][1])))
